@@ -10,7 +10,7 @@ import ast
 import itertools
 from fractions import Fraction
 from ..core import AnalysisError, norm, dotted, calls_in, walk_no_nested, parent, enclosing_stmt, const_value
-from ..flow import Flow, conjuncts
+from ..flow import Flow, conjuncts, guard_chain
 from ..order import Interp, eval_function
 from ..ratinterp import Rat
 from .C06 import fold
@@ -113,6 +113,9 @@ def rule_overlap(ctx):
     ok_tb = False
     if isinstance(tb, ast.Tuple) and len(tb.elts) == 4 and all(isinstance(e, ast.Name) for e in tb.elts):
         ok_tb = [pos.get(e.id) for e in tb.elts] == [1, 2, 3, 4]
+    elif isinstance(tb, ast.Tuple) and len(tb.elts) == 4 and isinstance(row, ast.Name) and all(
+            isinstance(e, ast.Subscript) and isinstance(e.value, ast.Name) and e.value.id == row.id and isinstance(e.slice, ast.Constant) for e in tb.elts):
+        ok_tb = [e.slice.value for e in tb.elts] == [1, 2, 3, 4]
     elif isinstance(tb, ast.Call) and dotted(tb.func) in ("tuple", "list") and len(tb.args) == 1 and isinstance(tb.args[0], ast.Name):
         ok_tb = pos.get(tb.args[0].id) == ("rest", 1, 0)
     elif isinstance(tb, ast.Name):
@@ -235,20 +238,30 @@ def rule_orient(ctx):
     # roles, read from the calls
     gn = calls_in(f.node, "get_native_grids")
     gt = calls_in(f.node, "get_tiles")
-    if len(gn) != 1 or len(gt) != 1 or len(gt[0].args) != 4:
+    if len(gn) != 1 or len(gt) != 1:
         raise AnalysisError("elevation: get_native_grids / get_tiles calls not found")
+    gt_args = list(gt[0].args)
+    if len(gt_args) == 1 and isinstance(gt_args[0], ast.Starred):
+        # get_tiles(*block): the four bounds are the elements of the unpacked tuple
+        gt_args = []
+        for k_ in range(4):
+            e_ = ast.copy_location(ast.Subscript(value=gt[0].args[0].value, slice=ast.Constant(value=k_), ctx=ast.Load()), gt[0].args[0])
+            ast.fix_missing_locations(e_)
+            e_._parent = gt[0]
+            gt_args.append(e_)
+    if len(gt_args) != 4 or gt[0].keywords:
+        raise AnalysisError("elevation: get_tiles is not called with the four block bounds")
     gst = enclosing_stmt(gn[0])
     if not (isinstance(gst, ast.Assign) and isinstance(gst.targets[0], ast.Tuple) and len(gst.targets[0].elts) == 2):
         raise AnalysisError("elevation: native grids are not unpacked into (lats, lons)")
     LD, OD = [norm(e) for e in gst.targets[0].elts]
-    B = [norm(a_) for a_ in gt[0].args]
-    if not all(isinstance(a_, ast.Name) for a_ in gt[0].args):
-        raise AnalysisError("elevation: block bounds passed to get_tiles are not plain names")
-    stores = [st for st in lp.body if isinstance(st, ast.Assign) and isinstance(st.targets[0], ast.Subscript)]
+    stores = [st for st in walk_no_nested(lp) if isinstance(st, ast.Assign) and isinstance(st.targets[0], ast.Subscript)]
     if len(stores) != 1 or not isinstance(stores[0].value, ast.Subscript):
         raise AnalysisError("elevation: expected one store `block[mask_d] = tile[mask_s]` in the loop")
     st0 = stores[0]
-    outer = tuple({LD, OD, t} | set(B) | {norm(st0.targets[0].value)})
+    # everything below is expressed in the native grid (LD, OD), the tile t and the block: the bounds handed to get_tiles by their values
+    outer = tuple({LD, OD, t} | {norm(st0.targets[0].value)})
+    B = [str(norm(flow.resolve(a_, at=gt[0], depth=6, stop=outer))) for a_ in gt_args]
     D = flow.resolve(st0.targets[0].slice, at=st0, depth=6, stop=outer)
     S = flow.resolve(st0.value.slice, at=st0, depth=6, stop=outer)
     src = flow.resolve(st0.value.value, at=st0, depth=2, stop=outer)
@@ -257,6 +270,27 @@ def rule_orient(ctx):
 
     def rect(lo0, x0, hi0, lo1, x1, hi1):
         return "((%s <= %s) & (%s < %s)).reshape(-1, 1) & ((%s <= %s) & (%s < %s)).reshape(1, -1)" % (lo0, x0, x0, hi0, lo1, x1, x1, hi1)
+    class _Col(ast.NodeTransformer):
+        """x[:, np.newaxis] -> x.reshape(-1, 1) and x[np.newaxis, :] -> x.reshape(1, -1): the same column / row of a 1-d axis mask"""
+        def visit_Subscript(self, n):
+            n = self.generic_visit(n)
+            sl = n.slice
+            if isinstance(sl, ast.Tuple) and len(sl.elts) == 2:
+                kinds = []
+                for e_ in sl.elts:
+                    if isinstance(e_, ast.Slice) and e_.lower is None and e_.upper is None and e_.step is None:
+                        kinds.append("all")
+                    elif (isinstance(e_, ast.Constant) and e_.value is None) or str(norm(e_)) in ("np.newaxis", "numpy.newaxis"):
+                        kinds.append("new")
+                    else:
+                        kinds.append("?")
+                if kinds in (["all", "new"], ["new", "all"]):
+                    shp = [-1, 1] if kinds[0] == "all" else [1, -1]
+                    return ast.copy_location(ast.Call(func=ast.Attribute(value=n.value, attr="reshape", ctx=ast.Load()),
+                                                      args=[ast.parse(str(k_), mode="eval").body for k_ in shp], keywords=[]), n)
+            return n
+    D = ast.fix_missing_locations(_Col().visit(D))
+    S = ast.fix_missing_locations(_Col().visit(S))
     want_s = rect(B[0], G[0], B[2], B[1], G[1], B[3])
     want_d = rect(T[0], LD, T[2], T[1], OD, T[3])
     ok_s = norm(S) == want_s
@@ -275,18 +309,35 @@ def rule_orient(ctx):
     dname = st0.targets[0].slice.id if isinstance(st0.targets[0].slice, ast.Name) else None
     jumps = []
     harmless = []
+    EMPTY = () if dname is None else ("not%s.any()" % dname, "notnp.any(%s)" % dname, "%s.sum()==0" % dname, "notnp.count_nonzero(%s)" % dname)
+    SOME = () if dname is None else ("%s.any()" % dname, "np.any(%s)" % dname, "%s.sum()>0" % dname, "np.count_nonzero(%s)" % dname, "%s.sum()!=0" % dname)
+
+    def nonempty_guard(test, pol):
+        """the branch taken exactly when the destination mask has a cell"""
+        t_ = str(norm(test)).replace(" ", "")
+        return (pol and t_ in SOME) or (not pol and t_ in EMPTY)
     for n in walk_no_nested(lp):
         if isinstance(n, (ast.Break, ast.Return)):
             jumps.append(str(norm(n)))
         elif isinstance(n, ast.Continue):
             g_ = parent(n)
             t_ = str(norm(g_.test)).replace(" ", "") if isinstance(g_, ast.If) and len(g_.body) == 1 and not g_.orelse else None
-            if dname is not None and t_ in ("not%s.any()" % dname, "notnp.any(%s)" % dname, "%s.sum()==0" % dname, "notnp.count_nonzero(%s)" % dname):
+            if t_ in EMPTY:
                 harmless.append(t_)
             else:
                 jumps.append("continue under %s" % (t_ or "?"))
-    it = flow.resolve(lp.iter, at=lp, depth=1)
-    ctx.ob("SRTM30.elevation.all_tiles", not jumps and norm(it) == norm(gt[0]), "loop over %s; early exits: %s; skipped when the destination mask is empty: %s" % (
+    # the store itself may sit under `if mask.any():` (the same skip, written as a positive branch); any other condition on it is not modelled
+    for test_, pol_ in guard_chain(st0, stop=lp, implicit=True):
+        if nonempty_guard(test_, pol_):
+            if str(norm(test_)).replace(" ", "") in SOME:
+                harmless.append(str(norm(test_)))
+        else:
+            raise AnalysisError("elevation: the store into the block is conditional on %s" % str(norm(test_))[:60])
+    it = lp.iter
+    if isinstance(it, ast.Name):
+        sd_ = flow.single_def_value(it.id, lp)
+        it = sd_[0] if sd_ else it
+    ctx.ob("SRTM30.elevation.all_tiles", not jumps and it is gt[0], "loop over %s; early exits: %s; skipped when the destination mask is empty: %s" % (
         norm(lp.iter), jumps or "none", bool(harmless)),
            "every tile named by get_tiles contributes its part of the block (no break / continue, except for a tile with an empty destination mask)", node=lp, func=f)
     # a tile is fetched (possibly downloaded) only when it contributes a cell: the bounds handed to get_tiles are cell centres +- half a
@@ -294,13 +345,12 @@ def rule_orient(ctx):
     gtile = [c_ for c_ in calls_in(lp, "get_tile")]
     if len(gtile) != 1:
         raise AnalysisError("elevation: the fetch of the tile (get_tile) inside the loop was not found")
-    guarded_fetch = bool(harmless) and any(isinstance(st_, ast.If) and any(isinstance(x, ast.Continue) for x in st_.body)
-                                           and flow._order(st_) < flow._order(enclosing_stmt(gtile[0])) for st_ in lp.body)
+    guarded_fetch = any(nonempty_guard(test_, pol_) for test_, pol_ in guard_chain(enclosing_stmt(gtile[0]), stop=lp, implicit=True))
     ctx.ob("SRTM30.elevation.fetch_needed", guarded_fetch, "get_tile is reached %s" % ("only after `if not %s.any(): continue`" % dname if guarded_fetch else "for every listed tile"),
            "a tile whose destination mask is empty is skipped BEFORE it is fetched: no download (and no failure offline) for a neighbour that contributes nothing",
            node=gtile[0], func=f, witness=None if guarded_fetch else {"cache": "only W020N40", "elevation": "(-10, 10, -9, 11)", "downloads": "w020s10"})
     # snapped bounds and inputs of the loop
-    bv = [norm(flow.resolve(a_, at=gt[0], depth=2, stop=(LD, OD))).replace(" ", "") for a_ in gt[0].args]
+    bv = [norm(flow.resolve(a_, at=gt[0], depth=6, stop=(LD, OD))).replace(" ", "") for a_ in gt_args]
     want_b = ["np.min(%s)-0.5*SRTM30._dlat" % LD, "np.min(%s)-0.5*SRTM30._dlon" % OD, "np.max(%s)+0.5*SRTM30._dlat" % LD, "np.max(%s)+0.5*SRTM30._dlon" % OD]
     bdef = [d_ for d_ in flow.defs(blk, lp) if d_ != "param" and not any(d_ is x for x in ast.walk(lp))]
     okp = bv == want_b and len(bdef) == 1 and norm(bdef[0].value).replace(" ", "") == "np.zeros(%s.shape+%s.shape)" % (LD, OD)
